@@ -611,5 +611,10 @@ func NormalizeAbsoluteFilePath(src string) string {
 
 // normalizeFirPath is linke NormalizeAbsoluteFilePath with a trailing slash.
 func NormalizeAbsoluteDirPath(path string) string {
-	return NormalizeAbsoluteFilePath(strings.TrimRight(path, "/")) + "/"
+	normalized := NormalizeAbsoluteFilePath(strings.TrimRight(path, "/"))
+	if normalized == "/" {
+		// the root already ends in a slash
+		return normalized
+	}
+	return normalized + "/"
 }
